@@ -5,7 +5,8 @@
 //! The [`Statistics`] struct holds everything the optimizer needs.
 
 use super::histogram::Histogram;
-use grafeo_common::types::Value;
+use grafeo_common::types::{HashableValue, Value};
+use std::cmp::Ordering;
 use std::collections::HashMap;
 
 /// A property key identifier.
@@ -348,8 +349,6 @@ fn estimate_linear_range(min: &Value, max: &Value, lower: &Value, upper: &Value)
 pub struct StatisticsCollector {
     /// Values collected for histogram building.
     values: Vec<Value>,
-    /// Distinct value tracker.
-    distinct: std::collections::HashSet<String>,
     /// Running min.
     min: Option<Value>,
     /// Running max.
@@ -358,8 +357,8 @@ pub struct StatisticsCollector {
     sum: f64,
     /// Null count.
     null_count: u64,
-    /// Value frequency counter.
-    frequencies: HashMap<String, u64>,
+    /// Occurrences per distinct value (also the distinct-value tracker).
+    frequencies: HashMap<HashableValue, u64>,
 }
 
 #[allow(dead_code)] // Used in tests and future cardinality estimation
@@ -368,7 +367,6 @@ impl StatisticsCollector {
     pub fn new() -> Self {
         Self {
             values: Vec::new(),
-            distinct: std::collections::HashSet::new(),
             min: None,
             max: None,
             sum: 0.0,
@@ -384,12 +382,11 @@ impl StatisticsCollector {
             return;
         }
 
-        // Track distinct values
-        let key = format!("{value:?}");
-        self.distinct.insert(key.clone());
-
-        // Track frequencies
-        *self.frequencies.entry(key).or_insert(0) += 1;
+        // Track distinct values and their frequencies
+        *self
+            .frequencies
+            .entry(HashableValue(value.clone()))
+            .or_insert(0) += 1;
 
         // Track min/max
         self.update_min_max(&value);
@@ -427,7 +424,7 @@ impl StatisticsCollector {
     /// Builds column statistics from collected data.
     pub fn build(mut self, num_histogram_buckets: usize, num_mcv: usize) -> ColumnStatistics {
         let total_count = self.values.len() as u64 + self.null_count;
-        let distinct_count = self.distinct.len() as u64;
+        let distinct_count = self.frequencies.len() as u64;
 
         let avg = if !self.values.is_empty() {
             Some(self.sum / self.values.len() as f64)
@@ -436,8 +433,7 @@ impl StatisticsCollector {
         };
 
         // Build histogram
-        self.values
-            .sort_by(|a, b| compare_values(a, b).unwrap_or(std::cmp::Ordering::Equal));
+        self.values.sort_by(sort_order);
         let histogram = if self.values.len() >= num_histogram_buckets {
             Some(Histogram::build(&self.values, num_histogram_buckets))
         } else {
@@ -452,22 +448,7 @@ impl StatisticsCollector {
         let most_common: Vec<(Value, f64)> = freq_vec
             .into_iter()
             .take(num_mcv)
-            .filter_map(|(key, count)| {
-                // Try to parse the key back to a value (simplified)
-                let freq = count as f64 / total_non_null;
-                // This is a simplification - we'd need to store actual values
-                if key.starts_with("Int64(") {
-                    let num_str = key.trim_start_matches("Int64(").trim_end_matches(')');
-                    num_str.parse::<i64>().ok().map(|n| (Value::Int64(n), freq))
-                } else if key.starts_with("String(") {
-                    let s = key
-                        .trim_start_matches("String(Arc(\"")
-                        .trim_end_matches("\"))");
-                    Some((Value::String(s.to_string().into()), freq))
-                } else {
-                    None
-                }
-            })
+            .map(|(key, count)| (key.0, count as f64 / total_non_null))
             .collect();
 
         let mut stats = ColumnStatistics::new(distinct_count, total_count, self.null_count);
@@ -508,6 +489,46 @@ fn value_to_f64(value: &Value) -> Option<f64> {
         Value::Float64(f) => Some(*f),
         _ => None,
     }
+}
+
+/// Total order used to sort a column before it is cut into histogram buckets.
+///
+/// It refines [`compare_values`]: values that function orders keep their order; NaN sorts
+/// after every number, and values of kinds that cannot be compared are grouped by kind.
+/// (`compare_values` alone is not a total order, and `sort_by` may panic on one.)
+#[allow(dead_code)] // Used by StatisticsCollector
+fn sort_order(a: &Value, b: &Value) -> Ordering {
+    fn kind(v: &Value) -> u8 {
+        match v {
+            Value::Null => 0,
+            Value::Bool(_) => 1,
+            Value::Float64(f) if f.is_nan() => 3,
+            Value::Int64(_) | Value::Float64(_) => 2,
+            Value::String(_) => 4,
+            _ => 5,
+        }
+    }
+    fn image(v: &Value) -> f64 {
+        match v {
+            Value::Int64(i) => *i as f64,
+            Value::Float64(f) => *f,
+            _ => 0.0,
+        }
+    }
+    kind(a).cmp(&kind(b)).then_with(|| match (a, b) {
+        (Value::Bool(x), Value::Bool(y)) => x.cmp(y),
+        (Value::String(x), Value::String(y)) => x.cmp(y),
+        (Value::Int64(_) | Value::Float64(_), Value::Int64(_) | Value::Float64(_)) => image(a)
+            .total_cmp(&image(b))
+            .then_with(|| match (a, b) {
+                // integers that share an f64 image (beyond 2^53) keep their own order
+                (Value::Int64(x), Value::Int64(y)) => x.cmp(y),
+                (Value::Int64(_), Value::Float64(_)) => Ordering::Less,
+                (Value::Float64(_), Value::Int64(_)) => Ordering::Greater,
+                _ => Ordering::Equal,
+            }),
+        _ => Ordering::Equal,
+    })
 }
 
 /// Compares two values.
